@@ -260,7 +260,8 @@ class SimSocket:
         return s, s.remote
 
     def getpeername(self):
-        if self.remote is None or self.state in ('new', 'closed'):
+        if self.remote is None or self.state in ('new', 'closed') or self.rx.reset:
+            # (also a connection that the other side reset while it was still waiting in the accept queue)
             raise OSError(107, 'Transport endpoint is not connected')
         return self.remote
 
@@ -377,6 +378,7 @@ class SimNet:
         self.unreachable = set()   # hosts for which connect fails at once (ENETUNREACH)
         self.force_local_port = None
         self.refuse = set()
+        self.aliases = {}         # (host, port) as dialled -> (host, port) of the listener that answers
 
     def rng_frag(self, sock):
         return self.k.streams.get('frag:%s:%s' % (sock.conn_id, sock.side))
@@ -427,7 +429,8 @@ class SimNet:
         k = self.k
         if sock.state != 'connecting':
             return
-        lst = self.listeners.get(sock.remote)
+        # a forwarded address (port forward, NAT hairpin): the dialling side sees the address it dialled, the listener is elsewhere
+        lst = self.listeners.get(self.aliases.get(sock.remote, sock.remote))
         if lst is None or lst.state != 'listening' or sock.remote in self.refuse:
             k.bump('connect_refused')
             sock.fail = 'refused'
@@ -450,6 +453,10 @@ class SimNet:
         k.trace.add(k.now, 'established', sock.conn_id)
         k.wake(lst.owner, k.now)
         k.wake(sock.owner, k.now)
+        if getattr(sock, 'reset_on_establish', False):
+            # fault: the client aborts the connection while it still sits in the listener's accept queue
+            k.bump('fault:reset_while_in_accept_queue')
+            self.reset_connection(sock, 'in accept queue')
 
     def deliver(self, src, dst, chunk):
         k = self.k
